@@ -23,7 +23,11 @@ import XvcPipeline.Graph
       its result (sound because the guards that read the bulletin are monotone: `C10_pub_monotone`);
       an unobserved process exit is inserted before the handler step that reports it;
     * every logged state, delivered state and slot count equals the model's;
-    * at the end every step thread has finished and the bulletin map equals the local states.
+    * a thread failure logged in state `Running` (D line) is executed as the model's `die` step at the `S release` line
+      that follows it (the real counter changes there, under its lock; between the two lines other threads still see
+      the slot as taken), a failure in any other state at the D line itself;
+    * at the end every step thread has finished, all slots are back, and for every step whose queue is empty the bulletin
+      map equals the local state (the bulletin thread may be stopped with a last message still queued).
 -/
 open Sched Sched.Gen
 
@@ -147,6 +151,10 @@ def validate (cs : Case) : String := Id.run do
   let mut σ := init c
   let mut nsteps := 0
   let mut died : List Nat := []
+  -- threads whose failure (D line) was logged in state `Running`: the model's `die` step (which gives the slot back)
+  -- is applied at the `S release` line that follows, because that is where the real counter changes (under its lock);
+  -- between the two lines other threads legitimately still see the slot as taken
+  let mut dying : List Nat := []
   let mut rules : List (String × Nat) := []
   let bump := fun (rules : List (String × Nat)) (k : String) =>
     if rules.any (fun p => p.1 == k) then rules.map (fun p => if p.1 == k then (p.1, p.2 + 1) else p) else rules ++ [(k, 1)]
@@ -169,7 +177,7 @@ def validate (cs : Case) : String := Id.run do
         | _ => σ
       stepL c σ1 (.handler s e)
     if en.kind == "H" then
-      if died.contains s then return s!"invalid at={en.seq} reason=state-published-after-thread-death"
+      if died.contains s || dying.contains s then return s!"invalid at={en.seq} reason=state-published-after-thread-death"
       if σ.loc s != en.st || σ.frm s != en.ev then
         match doHandler σ en.ev with
         | some σ' => σ := σ'; nsteps := nsteps + 1; rules := bump rules en.ev.name
@@ -191,9 +199,13 @@ def validate (cs : Case) : String := Id.run do
     else if en.kind == "D" then
       if σ.loc s != en.st then
         return s!"invalid at={en.seq} reason=state-differs-at-death:step={s}:logged={en.st.name}:model={(σ.loc s).name}"
-      match stepL c σ (.die s) with
-      | some σ' => σ := σ'; nsteps := nsteps + 1; died := s :: died; rules := bump rules "die"
-      | none => return s!"invalid at={en.seq} reason=die-not-enabled:step={s}"
+      if died.contains s || dying.contains s then return s!"invalid at={en.seq} reason=thread-failure-logged-twice:step={s}"
+      if σ.loc s == .Running then
+        dying := s :: dying
+      else
+        match stepL c σ (.die s) with
+        | some σ' => σ := σ'; nsteps := nsteps + 1; died := s :: died; rules := bump rules "die"
+        | none => return s!"invalid at={en.seq} reason=die-not-enabled:step={s}"
     else -- S
       if en.op == "acquire" then
         match doHandler σ .StartProcess with
@@ -208,7 +220,15 @@ def validate (cs : Case) : String := Id.run do
           | some σ' => σ := σ'; nsteps := nsteps + 1; rules := bump rules "ProcessPoolFull"
           | none => return s!"invalid at={en.seq} reason=pool-full-not-enabled:step={s}:model-slots={σ.slots}:state={showSt (σ.loc s, σ.frm s)}"
       else if en.op == "release" then
-        if died.contains s then pure ()    -- the release was part of the `die` step
+        if dying.contains s then
+          -- the slot held by a failed thread comes back: this is the model's `die` step
+          match stepL c σ (.die s) with
+          | some σ' =>
+            σ := σ'; nsteps := nsteps + 1; died := s :: died; dying := dying.filter (· != s)
+            rules := bump rules "die-at-Running"
+          | none => return s!"invalid at={en.seq} reason=die-not-enabled:step={s}"
+        else if died.contains s then
+          return s!"invalid at={en.seq} reason=slot-released-by-a-failed-thread-that-holds-none:step={s} (C13_slots_exact: a slot comes back exactly once)"
         else
           match nextEv k s with
           | some ("H", e) =>
@@ -222,14 +242,19 @@ def validate (cs : Case) : String := Id.run do
       if σ.slots != en.slots then
         return s!"invalid at={en.seq} reason=slot-counter-differs:logged={en.slots}:model={σ.slots}"
   -- final
+  let mut undelivered := 0
   for i in List.range cs.n do
+    if dying.contains i then
+      return s!"invalid at=end reason=thread-of-step-{i}-failed-in-Running-but-its-slot-never-came-back"
     if !σ.fin i then return s!"invalid at=end reason=step-{i}-did-not-finish:model-state={showSt (σ.loc i, σ.frm i)}"
-    if !(σ.chan i).isEmpty then return s!"invalid at=end reason=undelivered-states-of-step-{i}"
-    if σ.pub i != (σ.loc i, σ.frm i) then return s!"invalid at=end reason=bulletin-differs-from-local-state-of-step-{i}"
+    -- the bulletin thread is stopped by a kill signal after the step threads are joined; it may stop between its last
+    -- poll and a final message (a benign race of the implementation), so queued states at the end are tolerated
+    if !(σ.chan i).isEmpty then undelivered := undelivered + 1
+    else if σ.pub i != (σ.loc i, σ.frm i) then return s!"invalid at=end reason=bulletin-differs-from-local-state-of-step-{i}"
   if σ.slots != cs.pool then return s!"invalid at=end reason=slots-not-returned:model-slots={σ.slots}"
   let final := ",".intercalate ((List.range cs.n).map (fun i => s!"{i}:{(σ.loc i).name}"))
   let rs := ",".intercalate (rules.map (fun p => s!"{p.1}:{p.2}"))
-  return s!"valid steps={nsteps} final={final} rules={rs}"
+  return s!"valid steps={nsteps} final={final} rules={rs} undelivered={undelivered}"
 
 def parseCaseLine (cs : Case) (line : String) : Case :=
   match line.trimAscii.toString.splitOn " " with
